@@ -104,6 +104,7 @@ type Engine struct {
 	Stats Stats
 
 	top       *frame
+	debugOut  []string
 	skipIntrinsic bool
 	funcByName map[string]*ssa.Function
 	captureResult *V
@@ -1390,4 +1391,41 @@ func (e *Engine) lookupFunc(name string) *ssa.Function {
 	f := FindFunc(e.prog, name[:i], name[i+1:])
 	e.funcByName[name] = f
 	return f
+}
+
+// tryConcretize forks over the feasible values of t when there are at most limit of them;
+// otherwise nothing is decided and ok is false.
+func (e *Engine) tryConcretize(t *Term, limit int) (val uint64, ok bool) {
+	if t.Op == OpConst {
+		return t.K, true
+	}
+	if e.pos < len(e.prefix) {
+		// replaying: the recorded decision tells whether the fork happened
+		if e.prefix[e.pos].Kind == 2 {
+			e.decisions = append(e.decisions, e.prefix[e.pos])
+			e.pos++
+			return 0, false
+		}
+		return e.concretize(t), true
+	}
+	saved := e.cfg.MaxFork
+	nItems := len(e.newItems)
+	cfg := *e.cfg
+	cfg.MaxFork = limit
+	e.cfg = &cfg
+	defer func() {
+		cfg2 := *e.cfg
+		cfg2.MaxFork = saved
+		e.cfg = &cfg2
+		if r := recover(); r != nil {
+			if a, isAbort := r.(abort); isAbort && a.kind == AbortForkLimit {
+				e.newItems = e.newItems[:nItems]
+				e.decisions = append(e.decisions, Decision{Kind: 2})
+				val, ok = 0, false
+				return
+			}
+			panic(r)
+		}
+	}()
+	return e.concretize(t), true
 }
